@@ -91,6 +91,19 @@ def op_delete_block(c, T, p, o):
                 args=lambda m: dict(name=name_value(m, q)))
 
 
+def op_delete_readd_block(c, T, p, o):
+    """Two steps: delete a block, then add the SAME block object again (the object
+    keeps whatever records delete_block left on it)."""
+    q = G.mkname(c, 'q', o['alpha'])
+    def run():
+        blk = p.g.block[q] if q in p.g.block else None
+        p.g.delete_block(q)
+        if blk is not None: p.g.add_block(blk)
+    return dict(run=run,
+                klass=lambda m, group=None: 'absent' if _alias_index(m, q, p.bnames) is None else 'existing',
+                args=lambda m: dict(name=name_value(m, q)))
+
+
 def op_add_connection(c, T, p, o):
     i, j = o['pair']
     con = T.t2connection([p.blocks[i], p.blocks[j]])
@@ -317,7 +330,7 @@ def op_check_fix(c, T, p, o):
     return dict(run=lambda: p.g.check(fix=True, silent=True), klass=lambda m, group=None: 'any', args=lambda m: dict())
 
 
-OPS = dict(add_block=op_add_block, delete_block=op_delete_block, add_connection=op_add_connection,
+OPS = dict(add_block=op_add_block, delete_block=op_delete_block, delete_readd_block=op_delete_readd_block, add_connection=op_add_connection,
            delete_connection=op_delete_connection, add_rocktype=op_add_rocktype,
            delete_rocktype=op_delete_rocktype, rename_rocktype=op_rename_rocktype,
            clean_rocktypes=op_clean_rocktypes, demote_block=op_demote_block, reorder=op_reorder,
@@ -454,6 +467,7 @@ def catalogue(tier):
             sh = G.shape(nb, cons, nr=2, brock=[(i + 1) % 2 if i < 3 else 0 for i in range(nb)])
             add('add_block', sh, alpha=A, rock=1)
             add('delete_block', sh, alpha=A)
+            if cons: add('delete_readd_block', sh, alpha=A)
             add('delete_connection', sh, alpha=A)
             add('demote_block', sh, alpha=A, mode='single')
             add('check_fix', sh, alpha=A)
